@@ -117,6 +117,8 @@ class TwoTimeBathCorrelations(BaseAPIClass):
         """
         dt = self._process_tensor.dt
         corr_mat_dim = int(np.round(final_time/dt))
+        if self._system_correlations.size == 0:
+            self._system_correlations = np.zeros((0, 0), dtype=NpDtype)
         current_corr_dim = self._system_correlations.shape[0]
         times_a = slice(corr_mat_dim)
         if self._system_correlations.size == 0:
